@@ -375,6 +375,13 @@ fn fail_from_err(scenario: &str, op: &str, e: &StoreError) -> Fail {
 	}
 }
 
+/// Wait for a deferred map resize (if any) before a Store is dropped: `Store::batch()`
+/// blocks while one is pending. (Dropping the Store earlier makes the detached resize
+/// thread panic on the removed ENV_MAP entry; not part of this property.)
+fn settle(store: &Store) {
+	let _ = store.batch().map(drop);
+}
+
 /// Read all pairs of a key space on a fresh read transaction.
 fn dump_space(store: &Store, s: usize) -> Result<Vec<KV>, StoreError> {
 	let it = store.iter::<KvFn, KV>(SPACE_KEYS[s], kv_raw as KvFn)?;
@@ -514,6 +521,8 @@ struct Sess {
 	p_kinds: BTreeSet<&'static str>,
 	p_committed_write: bool,
 	p_dropped_write: bool,
+	g_space: usize,
+	g_win: usize,
 }
 
 #[derive(Clone, Copy, PartialEq, Eq, Debug)]
@@ -617,6 +626,8 @@ impl Sess {
 			p_kinds: BTreeSet::new(),
 			p_committed_write: false,
 			p_dropped_write: false,
+			g_space: 0,
+			g_win: 0,
 		}
 	}
 
@@ -652,8 +663,27 @@ impl Sess {
 			let n = self.prng.range(1, 24) as usize;
 			return self.prng.bytes(n);
 		}
+		if self.growth {
+			// growth sessions: a top-level batch works on one window of neighbouring keys of one
+			// key space, so that the pages it dirties stay well below the map's free headroom
+			let i = self.g_win + self.prng.usize_below(40);
+			return self.universe[i % self.universe.len()].clone();
+		}
 		let i = self.prng.usize_below(self.universe.len());
 		self.universe[i].clone()
+	}
+
+	fn pick_any_key(&mut self) -> Vec<u8> {
+		let i = self.prng.usize_below(self.universe.len());
+		self.universe[i].clone()
+	}
+
+	fn pick_space(&mut self) -> usize {
+		if self.growth {
+			self.g_space
+		} else {
+			self.prng.usize_below(NS)
+		}
 	}
 
 	fn new_val(&mut self, bid: u64) -> Val {
@@ -888,7 +918,7 @@ fn st_level(store: &Store, st: &mut Sess, batch: &mut Batch<'_>, depth: usize) -
 		let op = st.pick_op(depth);
 		match op {
 			Op::Put => {
-				let s = st.prng.usize_below(NS);
+				let s = st.pick_space();
 				let k = st.pick_key();
 				let v = st.new_val(bid);
 				let bytes = enc_val(&v);
@@ -910,7 +940,7 @@ fn st_level(store: &Store, st: &mut Sess, batch: &mut Batch<'_>, depth: usize) -
 				st.level_chains.last_mut().unwrap().insert(String::new());
 			}
 			Op::Delete => {
-				let s = st.prng.usize_below(NS);
+				let s = st.pick_space();
 				// prefer a key that is visible from here
 				let k = if st.prng.chance(3, 4) && !st.growth {
 					let view = st.model.view_in(s);
@@ -932,7 +962,7 @@ fn st_level(store: &Store, st: &mut Sess, batch: &mut Batch<'_>, depth: usize) -
 				st.level_chains.last_mut().unwrap().insert(String::new());
 			}
 			Op::Get => {
-				let s = st.prng.usize_below(NS);
+				let s = st.pick_space();
 				let k = st.pick_key();
 				st.stats.op("batch.get_ser");
 				st.p_kinds.insert("get_in");
@@ -943,7 +973,7 @@ fn st_level(store: &Store, st: &mut Sess, batch: &mut Batch<'_>, depth: usize) -
 				st.check_get("inside", "get_ser", depth, &k, got, st.model.get_in(s, &k))?;
 			}
 			Op::Exists => {
-				let s = st.prng.usize_below(NS);
+				let s = st.pick_space();
 				let k = st.pick_key();
 				st.stats.op("batch.exists");
 				st.p_kinds.insert("exists_in");
@@ -962,7 +992,7 @@ fn st_level(store: &Store, st: &mut Sess, batch: &mut Batch<'_>, depth: usize) -
 				}
 			}
 			Op::IterIn => {
-				let s = st.prng.usize_below(NS);
+				let s = st.pick_space();
 				st.stats.op("batch.iter");
 				st.p_kinds.insert("iter_in");
 				let got = {
@@ -978,7 +1008,7 @@ fn st_level(store: &Store, st: &mut Sess, batch: &mut Batch<'_>, depth: usize) -
 				}
 			}
 			Op::OutGet => {
-				let s = st.prng.usize_below(NS);
+				let s = st.pick_space();
 				let k = st.pick_key();
 				st.stats.op("store.get_ser(in-flight)");
 				st.p_kinds.insert("get_out");
@@ -989,7 +1019,7 @@ fn st_level(store: &Store, st: &mut Sess, batch: &mut Batch<'_>, depth: usize) -
 				st.check_get("outside", "get_ser", depth, &k, got, st.model.get_out(s, &k))?;
 			}
 			Op::OutExists => {
-				let s = st.prng.usize_below(NS);
+				let s = st.pick_space();
 				let k = st.pick_key();
 				st.stats.op("store.exists(in-flight)");
 				st.p_kinds.insert("exists_out");
@@ -1008,7 +1038,7 @@ fn st_level(store: &Store, st: &mut Sess, batch: &mut Batch<'_>, depth: usize) -
 				}
 			}
 			Op::OutIter => {
-				let s = st.prng.usize_below(NS);
+				let s = st.pick_space();
 				st.stats.op("store.iter(in-flight)");
 				st.p_kinds.insert("iter_out");
 				let got = dump_space(store, s).map_err(|e| st.err("store.iter", &e))?;
@@ -1084,7 +1114,7 @@ fn st_program(store: &Store, st: &mut Sess) -> Result<(), Fail> {
 				}
 			}
 			2 | 3 => {
-				let s = st.prng.usize_below(NS);
+				let s = st.pick_space();
 				let k = st.pick_key();
 				st.stats.op("store.get_ser");
 				let got = store
@@ -1105,7 +1135,9 @@ fn st_program(store: &Store, st: &mut Sess) -> Result<(), Fail> {
 		st.level_bids.push(st.next_bid);
 		st.batch_bytes = 0;
 		st.batch_budget = if st.growth {
-			(TL_MAP_SIZE.with(|c| c.get()) / 64) as usize
+			st.g_space = st.prng.usize_below(NS);
+			st.g_win = st.prng.usize_below(st.universe.len());
+			((TL_MAP_SIZE.with(|c| c.get()) / 64) as usize).min(64 * 1024)
 		} else {
 			usize::MAX
 		};
@@ -1141,7 +1173,7 @@ fn st_program(store: &Store, st: &mut Sess) -> Result<(), Fail> {
 fn st_reopen_check(store: &Store, st: &mut Sess) -> Result<(), Fail> {
 	st.outside_full_compare(store, "reopen")?;
 	let sample: Vec<Vec<u8>> = if st.growth {
-		(0..200).map(|_| st.pick_key()).collect()
+		(0..200).map(|_| st.pick_any_key()).collect()
 	} else {
 		st.universe.clone()
 	};
@@ -1203,6 +1235,7 @@ fn st_session(dir: &str, seed: u64, sess_idx: u64, growth: bool, nprog: usize, d
 		let r = st_program(store.as_ref().unwrap(), &mut st).and_then(|_| {
 			// durability / no trace of dropped: drop the Store, reopen the same path, compare everything
 			st.held = None;
+			settle(store.as_ref().unwrap());
 			store = None;
 			match open_store(dir, max_readers) {
 				Ok(s) => store = Some(s),
@@ -1238,6 +1271,9 @@ fn st_session(dir: &str, seed: u64, sess_idx: u64, growth: bool, nprog: usize, d
 	}
 	st.held = None;
 	st.stats.resizes += TL_RESIZES.with(|c| c.get());
+	if let Some(s) = store.as_ref() {
+		settle(s);
+	}
 	drop(store);
 	st.stats
 }
@@ -1498,8 +1534,10 @@ fn mt_junk(b: &mut Batch<'_>, sh: &Shared, other: Option<(u64, u32)>) -> Result<
 		c.delete(SPACE_KEYS[mt_space(oid, 0)], &mt_key(oid, 0))
 			.map_err(|e| fail_from_err("mt", "delete", &e))?;
 		let last = ok - 1;
-		c.put_ser(SPACE_KEYS[mt_space(oid, last)], &mt_key(oid, last), &mt_val(jid, 3, 0))
-			.map_err(|e| fail_from_err("mt", "put_ser", &e))?;
+		if last > 0 {
+			c.put_ser(SPACE_KEYS[mt_space(oid, last)], &mt_key(oid, last), &mt_val(jid, 3, 0))
+				.map_err(|e| fail_from_err("mt", "put_ser", &e))?;
+		}
 		let still = c
 			.exists(SPACE_KEYS[mt_space(oid, 0)], &mt_key(oid, 0))
 			.map_err(|e| fail_from_err("mt", "batch.exists", &e))?;
@@ -1681,7 +1719,7 @@ fn mt_writer(sh: &Shared, store: &Store, p: &MtParams, tid: usize, wid: u8, mut 
 		sh.st(tid, 2);
 		let id = sh.next_id.fetch_add(1, Ordering::SeqCst);
 		let map = LOG_MAP_SIZE.load(Ordering::SeqCst);
-		let budget = map / 64;
+		let budget = (map / 64).min(96 * 1024);
 		let live_main = sh.live_keys_main.load(Ordering::SeqCst);
 		let p_del = if live_main < p.target_keys {
 			10
@@ -1713,7 +1751,11 @@ fn mt_writer(sh: &Shared, store: &Store, p: &MtParams, tid: usize, wid: u8, mut 
 			}
 		}
 		let unit = if mt_scattered(id) { 4096 } else { 360 };
-		let kmax = (remaining / unit).max(1).min(2000);
+		let mut kmax = (remaining / unit).max(1).min(2000);
+		if live_main >= p.target_keys * 115 / 100 {
+			// above the target: do not write more keys than the batch deletes
+			kmax = kmax.min(victim.map(|v| v.3 as u64).unwrap_or(8).max(1));
+		}
 		let k = 1 + prng.below(kmax) as u32;
 		let idx = {
 			let mut l = sh.log.write().unwrap();
@@ -2212,4 +2254,1498 @@ fn mt_iter_thread(sh: &Shared, store: &Store, tid: usize, mut prng: Prng, holder
 	}
 	sh.st(tid, 0);
 	sh.finished[tid].store(true, Ordering::SeqCst);
+}
+
+struct MtResult {
+	counters: BTreeMap<String, u64>,
+	violations: Vec<(String, String, Value)>,
+	suspicious: Vec<String>,
+	hang: Option<String>,
+}
+
+impl MtResult {
+	fn to_json(&self) -> Value {
+		json!({
+			"counters": self.counters,
+			"violations": self.violations.iter().map(|(s, w, r)| json!({"sig": s, "what": w, "replay": r})).collect::<Vec<_>>(),
+			"suspicious": self.suspicious,
+			"hang": self.hang,
+		})
+	}
+	fn from_json(v: &Value) -> MtResult {
+		let mut counters = BTreeMap::new();
+		if let Some(o) = v.get("counters").and_then(|x| x.as_object()) {
+			for (k, x) in o {
+				counters.insert(k.clone(), x.as_u64().unwrap_or(0));
+			}
+		}
+		let violations = v
+			.get("violations")
+			.and_then(|x| x.as_array())
+			.map(|a| {
+				a.iter()
+					.map(|x| {
+						(
+							x["sig"].as_str().unwrap_or("?").to_string(),
+							x["what"].as_str().unwrap_or("?").to_string(),
+							x["replay"].clone(),
+						)
+					})
+					.collect()
+			})
+			.unwrap_or_default();
+		let suspicious = v
+			.get("suspicious")
+			.and_then(|x| x.as_array())
+			.map(|a| a.iter().filter_map(|x| x.as_str().map(|s| s.to_string())).collect())
+			.unwrap_or_default();
+		MtResult {
+			counters,
+			violations,
+			suspicious,
+			hang: v.get("hang").and_then(|x| x.as_str()).map(|s| s.to_string()),
+		}
+	}
+}
+
+fn mt_collect(sh: &Shared, hang: Option<String>) -> MtResult {
+	let mut counters = sh.counters.lock().unwrap().clone();
+	counters.insert("mt_resizes_decided".into(), LOG_RESIZE_DECIDED.load(Ordering::SeqCst));
+	counters.insert("mt_resizes_completed".into(), LOG_RESIZE_END.load(Ordering::SeqCst));
+	counters.insert("mt_resizes_deferred_until_txs_closed".into(), LOG_RESIZE_WAIT.load(Ordering::SeqCst));
+	counters.insert("mt_resizes_immediate".into(), LOG_RESIZE_IMMEDIATE.load(Ordering::SeqCst));
+	counters.insert("mt_resize_errors".into(), LOG_RESIZE_ERR.load(Ordering::SeqCst));
+	counters.insert("mt_final_map_size".into(), LOG_MAP_SIZE.load(Ordering::SeqCst));
+	counters.insert("mt_log_entries".into(), sh.pushed.load(Ordering::SeqCst) as u64);
+	let mut suspicious = sh.susp.lock().unwrap().clone();
+	for m in LOG_STORE_ERRORS.lock().unwrap().iter() {
+		suspicious.push(format!("error-level log line of grin_store: {}", m));
+	}
+	MtResult {
+		counters,
+		violations: sh.viol.lock().unwrap().clone(),
+		suspicious,
+		hang,
+	}
+}
+
+fn mt_expected_final(l: &CLog) -> Vec<KMap> {
+	let mut maps: Vec<KMap> = (0..NS).map(|_| KMap::new()).collect();
+	for e in l.live_at(l.entries.len()) {
+		let ent = &l.entries[e];
+		for q in 0..ent.k {
+			maps[mt_space(ent.id, q)].insert(mt_key(ent.id, q), enc_val(&mt_val(ent.id, ent.k, q)));
+		}
+	}
+	maps
+}
+
+fn mt_run(p: &MtParams) -> MtResult {
+	init_thread();
+	let store = match open_store(&p.dir, None) {
+		Ok(s) => Arc::new(s),
+		Err(e) => {
+			return MtResult {
+				counters: BTreeMap::new(),
+				violations: vec![],
+				suspicious: vec![format!("Store::new failed: {:?}", e)],
+				hang: None,
+			}
+		}
+	};
+	let mut roles = vec!["writer-1".to_string(), "writer-2".to_string()];
+	for i in 0..p.n_point {
+		roles.push(format!("point-reader-{}", i));
+	}
+	for i in 0..p.n_iter {
+		roles.push(format!("snapshot-iterator-{}", i));
+	}
+	for i in 0..p.n_hold {
+		roles.push(format!("iterator-holder-{}", i));
+	}
+	let nt = roles.len();
+	let sh = Arc::new(Shared {
+		log: RwLock::new(CLog {
+			entries: vec![],
+			by_id: HashMap::new(),
+		}),
+		pushed: AtomicUsize::new(0),
+		resolved: AtomicUsize::new(0),
+		next_id: AtomicU64::new(1),
+		stop: AtomicBool::new(false),
+		progress: (0..nt).map(|_| AtomicU64::new(0)).collect(),
+		tstate: (0..nt).map(|_| AtomicU64::new(0)).collect(),
+		finished: (0..nt).map(|_| AtomicBool::new(false)).collect(),
+		roles,
+		viol: Mutex::new(vec![]),
+		susp: Mutex::new(vec![]),
+		counters: Mutex::new(BTreeMap::new()),
+		live_keys_main: AtomicU64::new(0),
+		writer_active: AtomicBool::new(true),
+		seed: p.seed,
+	});
+	let mut root = Prng::new(p.seed ^ 0xC18_C18_C18);
+	let all_done = Arc::new(AtomicBool::new(false));
+
+	// monitor: hang detection + data file size
+	let mon = {
+		let sh = sh.clone();
+		let p = p.clone();
+		let all_done = all_done.clone();
+		std::thread::spawn(move || {
+			let nt = sh.roles.len();
+			let mut last: Vec<(u64, Instant)> = (0..nt).map(|_| (0, Instant::now())).collect();
+			while !all_done.load(Ordering::SeqCst) {
+				std::thread::sleep(Duration::from_millis(250));
+				sh.set_max("mt_max_data_mdb_bytes", data_mdb_size(&p.dir));
+				let mut stuck = vec![];
+				for t in 0..nt {
+					if sh.finished[t].load(Ordering::SeqCst) {
+						continue;
+					}
+					let pr = sh.progress[t].load(Ordering::Relaxed);
+					if pr != last[t].0 {
+						last[t] = (pr, Instant::now());
+					} else if last[t].1.elapsed().as_secs() >= p.hang_secs {
+						stuck.push(format!("{}:{}", sh.roles[t], state_name(sh.tstate[t].load(Ordering::Relaxed))));
+					}
+				}
+				if !stuck.is_empty() {
+					let all: Vec<String> = (0..nt)
+						.filter(|t| !sh.finished[*t].load(Ordering::SeqCst))
+						.map(|t| format!("{}:{}", sh.roles[t], state_name(sh.tstate[t].load(Ordering::Relaxed))))
+						.collect();
+					let desc = format!("stuck={} | unfinished={}", stuck.join(","), all.join(","));
+					eprintln!("\nHANG {}", desc);
+					let r = mt_collect(&sh, Some(desc));
+					if let Some(out) = &p.out {
+						let _ = std::fs::write(out, serde_json::to_string(&r.to_json()).unwrap());
+					}
+					unsafe { libc::_exit(vcommon::monitor::EXIT_HANG) };
+				}
+			}
+		})
+	};
+
+	std::thread::scope(|sc| {
+		let mut tid = 0usize;
+		for wid in 0..2u8 {
+			let (sh, store, p) = (sh.clone(), store.clone(), p.clone());
+			let prng = root.fork(100 + wid as u64);
+			let t = tid;
+			sc.spawn(move || mt_writer(&sh, &store, &p, t, wid, prng));
+			tid += 1;
+		}
+		for i in 0..p.n_point {
+			let (sh, store) = (sh.clone(), store.clone());
+			let prng = root.fork(200 + i as u64);
+			let t = tid;
+			sc.spawn(move || mt_point_reader(&sh, &store, t, prng));
+			tid += 1;
+		}
+		for i in 0..(p.n_iter + p.n_hold) {
+			let (sh, store) = (sh.clone(), store.clone());
+			let prng = root.fork(300 + i as u64);
+			let t = tid;
+			let holder = i >= p.n_iter;
+			sc.spawn(move || mt_iter_thread(&sh, &store, t, prng, holder));
+			tid += 1;
+		}
+	});
+	all_done.store(true, Ordering::SeqCst);
+	let _ = mon.join();
+
+	// final contents == model (no committed write lost), then again after reopen
+	if sh.viol.lock().unwrap().is_empty() && sh.susp.lock().unwrap().is_empty() {
+		let expected = {
+			let l = sh.log.read().unwrap();
+			mt_expected_final(&l)
+		};
+		let compare = |store: &Store, ctx: &str| -> bool {
+			for s in 0..NS {
+				match dump_space(store, s) {
+					Ok(got) => {
+						if let Some((class, detail)) = diff_seq(&got, &expected[s]) {
+							sh.violation(
+								&format!("mt;{};class={}", ctx, class),
+								&format!(
+									"contents of key space {} after the concurrent workload ({}) differ from the committed history: {}",
+									s, ctx, detail
+								),
+								json!({"space": s, "got_keys": got.len(), "expected_keys": expected[s].len()}),
+							);
+							return false;
+						}
+						sh.set_max(&format!("mt_final_keys_space{}", s), got.len() as u64);
+					}
+					Err(e) => {
+						sh.fail(fail_from_err("mt", "store.iter", &e));
+						return false;
+					}
+				}
+			}
+			match dump_unused(store) {
+				Ok(0) => {}
+				Ok(n) => sh.violation(
+					&format!("mt;{};class=phantom", ctx),
+					&format!("{} keys in a key space nothing was written to", n),
+					json!(null),
+				),
+				Err(e) => sh.fail(fail_from_err("mt", "store.iter", &e)),
+			}
+			sh.count("mt_end_state_comparisons", 1);
+			true
+		};
+		if compare(&store, "final") {
+			match Arc::try_unwrap(store) {
+				Ok(s) => {
+					settle(&s);
+					drop(s);
+					match open_store(&p.dir, None) {
+						Ok(s2) => {
+							compare(&s2, "reopen");
+						}
+						Err(e) => sh.fail(fail_from_err("mt", "Store::new(reopen)", &e)),
+					}
+				}
+				Err(_) => sh.susp.lock().unwrap().push("harness: store handle still shared at the end".into()),
+			}
+		}
+	}
+	sh.set_max("mt_max_data_mdb_bytes", data_mdb_size(&p.dir));
+	mt_collect(&sh, None)
+}
+
+fn worker_mt(args: &[String]) -> i32 {
+	// --worker-mt seed dir target_keys max_batches max_secs n_point n_iter n_hold hang_secs out
+	install_logger();
+	no_core_dumps();
+	let u = |i: usize| args[i].parse::<u64>().unwrap_or(0);
+	let p = MtParams {
+		seed: u(0),
+		dir: args[1].clone(),
+		target_keys: u(2),
+		max_batches: u(3),
+		max_secs: u(4),
+		n_point: u(5) as usize,
+		n_iter: u(6) as usize,
+		n_hold: u(7) as usize,
+		hang_secs: u(8),
+		worker: true,
+		out: Some(args[9].clone()),
+	};
+	let r = mt_run(&p);
+	let _ = std::fs::write(&args[9], serde_json::to_string(&r.to_json()).unwrap());
+	0
+}
+
+fn no_core_dumps() {
+	unsafe {
+		let lim = libc::rlimit {
+			rlim_cur: 0,
+			rlim_max: 0,
+		};
+		libc::setrlimit(libc::RLIMIT_CORE, &lim);
+	}
+}
+
+// ------------------------------------------------------------------ (3) crash enumeration around commit
+
+#[derive(Clone)]
+enum COp {
+	Put(usize, Vec<u8>, Vec<u8>),
+	Del(usize, Vec<u8>),
+	Child(Vec<COp>, bool),
+}
+
+struct CrashGen {
+	prng: Prng,
+	bid: u64,
+	seq: u32,
+	next_key: u32,
+	big: bool,
+}
+
+impl CrashGen {
+	fn val(&mut self) -> Vec<u8> {
+		self.seq += 1;
+		let len = if self.big {
+			self.prng.range(150, 400) as usize
+		} else {
+			self.prng.range(0, 120) as usize
+		};
+		enc_val(&Val {
+			batch_id: self.bid,
+			batch_size: 0,
+			seq: self.seq,
+			payload: self.prng.bytes(len),
+		})
+	}
+	fn old_key(&mut self) -> Vec<u8> {
+		// big (resize) variant: touch only recent keys so that a batch dirties few pages
+		let n = self.next_key.max(1) as u64;
+		let i = if self.big { n - 1 - self.prng.below(n.min(60)) } else { self.prng.below(n) };
+		format!("c{:05}", i).into_bytes()
+	}
+	fn new_key(&mut self) -> Vec<u8> {
+		self.next_key += 1;
+		format!("c{:05}", self.next_key - 1).into_bytes()
+	}
+	/// Ops of one level: new keys, overwrites and deletes of existing keys, nested children.
+	fn ops(&mut self, depth: usize, n: usize) -> Vec<COp> {
+		let mut v = vec![];
+		for _ in 0..n {
+			let s = match self.prng.below(10) {
+				0 | 1 => 1,
+				2 | 3 => 2,
+				_ => 0,
+			};
+			match self.prng.below(100) {
+				0..=54 => {
+					let k = self.new_key();
+					let val = self.val();
+					v.push(COp::Put(s, k, val));
+				}
+				55..=74 => {
+					let k = self.old_key();
+					let val = self.val();
+					v.push(COp::Put(s, k, val));
+				}
+				75..=89 => {
+					let k = self.old_key();
+					v.push(COp::Del(s, k));
+				}
+				_ => {
+					if depth < 3 {
+						self.bid += 1;
+						let m = self.prng.range(2, 8) as usize;
+						let inner = self.ops(depth + 1, m);
+						let commit = self.prng.chance(2, 3);
+						v.push(COp::Child(inner, commit));
+					}
+				}
+			}
+		}
+		v
+	}
+}
+
+fn crash_apply_model(m: &mut RefNestedMap, ops: &[COp]) {
+	for op in ops {
+		match op {
+			COp::Put(s, k, v) => m.put(*s, k, v.clone()),
+			COp::Del(s, k) => m.delete(*s, k),
+			COp::Child(inner, commit) => {
+				m.begin();
+				crash_apply_model(m, inner);
+				if *commit {
+					m.commit()
+				} else {
+					m.rollback()
+				}
+			}
+		}
+	}
+}
+
+fn crash_apply_store(b: &mut Batch<'_>, ops: &[COp]) -> Result<(), StoreError> {
+	for op in ops {
+		match op {
+			COp::Put(s, k, v) => b.put(SPACE_KEYS[*s], k, v)?,
+			COp::Del(s, k) => b.delete(SPACE_KEYS[*s], k)?,
+			COp::Child(inner, commit) => {
+				let mut c = b.child()?;
+				crash_apply_store(&mut c, inner)?;
+				if *commit {
+					c.commit()?;
+				}
+			}
+		}
+	}
+	Ok(())
+}
+
+fn write_sync(path: &str, content: &str) {
+	use std::io::Write;
+	if let Ok(mut f) = std::fs::File::create(path) {
+		let _ = f.write_all(content.as_bytes());
+		let _ = f.sync_all();
+	}
+}
+
+fn append_sync(path: &str, line: &str) {
+	use std::io::Write;
+	if let Ok(mut f) = std::fs::OpenOptions::new().create(true).append(true).open(path) {
+		let _ = writeln!(f, "{}", line);
+		let _ = f.sync_all();
+	}
+}
+
+/// `--worker-crash n dir seed variant`: prefill, write the expected states to a
+/// side file, arm the crash hook, run the armed batches (dies by abort at point n).
+fn worker_crash(args: &[String]) -> i32 {
+	install_logger();
+	no_core_dumps();
+	init_thread();
+	let n: u64 = args[0].parse().unwrap_or(0);
+	let dir = args[1].clone();
+	let seed: u64 = args[2].parse().unwrap_or(1);
+	let variant: u64 = args[3].parse().unwrap_or(0);
+	let db = format!("{}/db", dir);
+	let side = format!("{}/states.json", dir);
+	let progress = format!("{}/progress.log", dir);
+	let crashlog = format!("{}/crash.log", dir);
+	let out = format!("{}/out.json", dir);
+	let resize_variant = variant == 1;
+	let store = match open_store(&db, None) {
+		Ok(s) => s,
+		Err(e) => {
+			write_sync(&out, &json!({"error": format!("Store::new: {:?}", e)}).to_string());
+			return 3;
+		}
+	};
+	let mut g = CrashGen {
+		prng: Prng::new(seed ^ (variant << 32) ^ 0xC4A5),
+		bid: 1,
+		seq: 0,
+		next_key: 0,
+		big: resize_variant,
+	};
+	let mut model = RefNestedMap::new();
+	// prefill (not armed)
+	let mut prefill = 0u64;
+	loop {
+		if resize_variant {
+			if data_mdb_size(&db) >= 800 * 1024 || prefill > 400 {
+				break;
+			}
+		} else if prefill >= 6 {
+			break;
+		}
+		g.bid += 1;
+		let nops = if resize_variant { 40 } else { 25 };
+		let ops = g.ops(0, nops);
+		model.begin();
+		crash_apply_model(&mut model, &ops);
+		model.commit();
+		let r = store.batch().and_then(|mut b| {
+			crash_apply_store(&mut b, &ops)?;
+			b.commit()
+		});
+		if let Err(e) = r {
+			write_sync(&out, &json!({"error": format!("prefill: {:?}", e)}).to_string());
+			return 3;
+		}
+		prefill += 1;
+	}
+	// armed batches: generated and modelled BEFORE arming
+	let n_armed = if resize_variant { 6 } else { 4 };
+	let mut armed: Vec<(Vec<COp>, bool)> = vec![];
+	let mut states = vec![model.fingerprint()];
+	for i in 0..n_armed {
+		g.bid += 1;
+		let nops = if resize_variant { 90 } else { g.prng.range(12, 40) as usize };
+		let mut ops = g.ops(0, nops);
+		// make sure every armed batch has a committed and a dropped child with writes
+		g.bid += 1;
+		let c1 = g.ops(1, 4);
+		g.bid += 1;
+		let c2 = g.ops(1, 4);
+		ops.push(COp::Child(c1, true));
+		ops.push(COp::Child(c2, false));
+		let commit = !(i == 1); // the second armed batch is dropped: no crash point, no trace
+		model.begin();
+		crash_apply_model(&mut model, &ops);
+		if commit {
+			model.commit();
+			states.push(model.fingerprint());
+		} else {
+			model.rollback();
+		}
+		armed.push((ops, commit));
+	}
+	write_sync(
+		&side,
+		&json!({
+			"prefill_batches": prefill,
+			"armed_batches": n_armed,
+			"states": states.iter().map(|(fp, c)| json!({"fp": format!("{:016x}", fp), "keys": c})).collect::<Vec<_>>(),
+		})
+		.to_string(),
+	);
+	let resizes0 = LOG_RESIZE_END.load(Ordering::SeqCst);
+	verif_hooks::crash_arm(n, Some(crashlog.clone()));
+	for (i, (ops, commit)) in armed.iter().enumerate() {
+		let mut b = match store.batch() {
+			Ok(b) => b,
+			Err(e) => {
+				write_sync(&out, &json!({"error": format!("armed batch(): {:?}", e)}).to_string());
+				return 3;
+			}
+		};
+		append_sync(
+			&progress,
+			&format!("batch {} resizes_since_arm {}", i, LOG_RESIZE_END.load(Ordering::SeqCst) - resizes0),
+		);
+		if let Err(e) = crash_apply_store(&mut b, ops) {
+			write_sync(&out, &json!({"error": format!("armed ops: {:?}", e)}).to_string());
+			return 3;
+		}
+		if *commit {
+			if let Err(e) = b.commit() {
+				write_sync(&out, &json!({"error": format!("armed commit: {:?}", e)}).to_string());
+				return 3;
+			}
+		} else {
+			drop(b);
+		}
+	}
+	let labels = verif_hooks::crash_disarm();
+	write_sync(
+		&out,
+		&json!({"labels": labels, "resizes_armed": LOG_RESIZE_END.load(Ordering::SeqCst) - resizes0,
+			"prefill_batches": prefill, "map_size": LOG_MAP_SIZE.load(Ordering::SeqCst)})
+		.to_string(),
+	);
+	0
+}
+
+/// `--worker-dump dir out`: reopen a (possibly crashed) store, fingerprint it, then
+/// check it is still writable.
+fn worker_dump(args: &[String]) -> i32 {
+	install_logger();
+	no_core_dumps();
+	init_thread();
+	let db = format!("{}/db", args[0]);
+	let out = args[1].clone();
+	let res = (|| -> Result<Value, String> {
+		let store = open_store(&db, None).map_err(|e| format!("Store::new: {:?}", e))?;
+		let dump = |store: &Store| -> Result<Vec<KMap>, String> {
+			let mut maps = vec![];
+			for s in 0..NS {
+				let v = dump_space(store, s).map_err(|e| format!("iter: {:?}", e))?;
+				let mut m = KMap::new();
+				let n = v.len();
+				for (k, val) in v {
+					m.insert(k, val);
+				}
+				if m.len() != n {
+					return Err("duplicate keys in iteration".into());
+				}
+				maps.push(m);
+			}
+			Ok(maps)
+		};
+		let maps = dump(&store)?;
+		let (fp, counts) = fingerprint_maps(&maps);
+		let unused = dump_unused(&store).map_err(|e| format!("iter: {:?}", e))?;
+		// usable after the crash: one more batch
+		let mut post_ok = true;
+		let mut post_err = String::new();
+		let r = store.batch().and_then(|mut b| {
+			for i in 0..20u32 {
+				b.put(SPACE_KEYS[(i % 3) as usize], format!("zz-post-{}", i).as_bytes(), &[7u8; 200])?;
+			}
+			b.commit()
+		});
+		match r {
+			Err(e) => {
+				post_ok = false;
+				post_err = format!("{:?}", e);
+			}
+			Ok(()) => {
+				drop(store);
+				let store = open_store(&db, None).map_err(|e| format!("Store::new(2): {:?}", e))?;
+				let mut maps2 = dump(&store)?;
+				for i in 0..20u32 {
+					if maps2[(i % 3) as usize].remove(format!("zz-post-{}", i).as_bytes()).is_none() {
+						post_ok = false;
+						post_err = "post-crash write lost".into();
+					}
+				}
+				if fingerprint_maps(&maps2).0 != fp {
+					post_ok = false;
+					post_err = "content changed by an unrelated post-crash batch".into();
+				}
+			}
+		}
+		Ok(json!({"fp": format!("{:016x}", fp), "keys": counts, "unused": unused, "post_ok": post_ok, "post_err": post_err}))
+	})();
+	match res {
+		Ok(v) => {
+			write_sync(&out, &v.to_string());
+			0
+		}
+		Err(e) => {
+			write_sync(&out, &json!({"error": e}).to_string());
+			3
+		}
+	}
+}
+
+/// `--worker-probe dir out`: informational probes outside the property's scope:
+/// one batch larger than the free headroom of the map; writes on a thread that
+/// keeps its own read iterator open (nested-tx escape of the resize wait).
+fn worker_probe(args: &[String]) -> i32 {
+	install_logger();
+	no_core_dumps();
+	init_thread();
+	let out = args[1].clone();
+	let mut res = serde_json::Map::new();
+	{
+		let store = open_store(&format!("{}/big", args[0]), None).unwrap();
+		let r = store.batch().and_then(|mut b| {
+			for i in 0..1500u32 {
+				b.put(SPACE_KEYS[0], format!("big{:05}", i).as_bytes(), &[1u8; 400])?;
+			}
+			b.commit()
+		});
+		res.insert(
+			"single_batch_600KB_into_fresh_1MiB_map".into(),
+			json!(match r {
+				Ok(()) => "ok".to_string(),
+				Err(e) => format!("{:?}", e),
+			}),
+		);
+	}
+	{
+		let store = open_store(&format!("{}/nested", args[0]), None).unwrap();
+		let mut outcome = "ok".to_string();
+		let held = store.iter::<KvFn, KV>(SPACE_KEYS[0], kv_raw as KvFn);
+		'o: for j in 0..150u32 {
+			let r = store.batch().and_then(|mut b| {
+				for i in 0..40u32 {
+					b.put(SPACE_KEYS[0], format!("n{:04}-{:03}", j, i).as_bytes(), &[2u8; 300])?;
+				}
+				b.commit()
+			});
+			if let Err(e) = r {
+				outcome = format!("batch {}: {:?}", j, e);
+				break 'o;
+			}
+		}
+		drop(held);
+		res.insert("1.8MB_in_16KB_batches_while_same_thread_holds_an_iterator".into(), json!(outcome));
+	}
+	write_sync(&out, &Value::Object(res).to_string());
+	0
+}
+
+// ------------------------------------------------------------------ process helper
+
+struct ProcOut {
+	code: Option<i32>,
+	signal: Option<i32>,
+	timed_out: bool,
+	tail: String,
+}
+
+fn run_worker(args: &[String], log_path: &str, timeout: Duration) -> ProcOut {
+	use std::os::unix::process::ExitStatusExt;
+	let exe = std::env::current_exe().expect("current_exe");
+	let logf = std::fs::File::create(log_path).ok();
+	let mut cmd = std::process::Command::new(exe);
+	cmd.args(args).stdin(std::process::Stdio::null());
+	if let Some(f) = logf {
+		if let Ok(f2) = f.try_clone() {
+			cmd.stdout(f).stderr(f2);
+		}
+	}
+	let mut child = match cmd.spawn() {
+		Ok(c) => c,
+		Err(e) => {
+			return ProcOut {
+				code: None,
+				signal: None,
+				timed_out: false,
+				tail: format!("spawn failed: {}", e),
+			}
+		}
+	};
+	let t0 = Instant::now();
+	let mut timed_out = false;
+	let status = loop {
+		match child.try_wait() {
+			Ok(Some(s)) => break Some(s),
+			Ok(None) => {
+				if t0.elapsed() > timeout {
+					let _ = child.kill();
+					timed_out = true;
+					break child.wait().ok();
+				}
+				std::thread::sleep(Duration::from_millis(10));
+			}
+			Err(_) => break None,
+		}
+	};
+	let tail = std::fs::read(log_path)
+		.map(|b| String::from_utf8_lossy(&b[b.len().saturating_sub(1200)..]).to_string())
+		.unwrap_or_default();
+	ProcOut {
+		code: status.and_then(|s| s.code()),
+		signal: status.and_then(|s| s.signal()),
+		timed_out,
+		tail,
+	}
+}
+
+fn read_json(path: &str) -> Option<Value> {
+	std::fs::read_to_string(path).ok().and_then(|s| serde_json::from_str(&s).ok())
+}
+
+// ------------------------------------------------------------------ parent side: crash enumeration
+
+#[derive(Default)]
+struct CrashStats {
+	points: u64,
+	pre_points: u64,
+	post_points: u64,
+	reopen_cmp: u64,
+	post_crash_writes_ok: u64,
+	resizes_in_armed_phase: u64,
+	labels: BTreeSet<String>,
+	sigs: Vec<(String, bool)>,
+	violations: Vec<(String, String, Value)>,
+	inconclusive: Vec<String>,
+	sample: Option<Value>,
+}
+
+fn crash_enumerate(base: &str, seed: u64, variant: u64) -> CrashStats {
+	let mut cs = CrashStats::default();
+	let tag = format!("crash-s{}-v{}", seed, variant);
+	let mk = |n: u64| -> String {
+		let d = format!("{}/{}-p{}", base, tag, n);
+		let _ = std::fs::remove_dir_all(&d);
+		let _ = std::fs::create_dir_all(&d);
+		d
+	};
+	let wargs = |n: u64, d: &str| -> Vec<String> {
+		vec!["--worker-crash".into(), n.to_string(), d.to_string(), seed.to_string(), variant.to_string()]
+	};
+	// count mode
+	let d0 = mk(0);
+	let r = run_worker(&wargs(0, &d0), &format!("{}/worker.log", d0), Duration::from_secs(120));
+	let out0 = read_json(&format!("{}/out.json", d0));
+	let labels: Vec<String> = out0
+		.as_ref()
+		.and_then(|v| v.get("labels"))
+		.and_then(|x| x.as_array())
+		.map(|a| a.iter().filter_map(|x| x.as_str().map(|s| s.to_string())).collect())
+		.unwrap_or_default();
+	if r.code != Some(0) || labels.is_empty() {
+		cs.inconclusive.push(format!(
+			"{}: count-mode worker failed (code {:?} signal {:?} timeout {}): {} {}",
+			tag,
+			r.code,
+			r.signal,
+			r.timed_out,
+			out0.map(|v| v.to_string()).unwrap_or_default(),
+			r.tail
+		));
+		return cs;
+	}
+	let states0 = read_json(&format!("{}/states.json", d0));
+	// the un-crashed run must end in the last model state as well
+	let n_points = labels.len() as u64;
+	for n in 0..=n_points {
+		let d = if n == 0 { d0.clone() } else { mk(n) };
+		let mut expected_idx;
+		let label;
+		if n == 0 {
+			expected_idx = labels.iter().filter(|l| l.as_str() == "lmdb.commit.post").count();
+			label = "none".to_string();
+		} else {
+			let r = run_worker(&wargs(n, &d), &format!("{}/worker.log", d), Duration::from_secs(120));
+			if r.signal != Some(libc::SIGABRT) {
+				cs.inconclusive.push(format!(
+					"{} point {}: worker did not die by SIGABRT (code {:?} signal {:?} timeout {}): {}",
+					tag, n, r.code, r.signal, r.timed_out, r.tail
+				));
+				continue;
+			}
+			let log = std::fs::read_to_string(format!("{}/crash.log", d)).unwrap_or_default();
+			let lines: Vec<&str> = log.lines().collect();
+			let last = lines.last().cloned().unwrap_or("");
+			if !last.starts_with("CRASH ") {
+				cs.inconclusive.push(format!("{} point {}: crash log has no CRASH line: {:?}", tag, n, last));
+				continue;
+			}
+			label = last.split(' ').nth(2).unwrap_or("?").to_string();
+			expected_idx = lines.iter().filter(|l| l.ends_with("lmdb.commit.post")).count();
+			if label != labels[(n - 1) as usize] {
+				cs.inconclusive.push(format!(
+					"{} point {}: label {} differs from count mode {}",
+					tag,
+					n,
+					label,
+					labels[(n - 1) as usize]
+				));
+				continue;
+			}
+			cs.points += 1;
+			cs.labels.insert(label.clone());
+			if label.ends_with(".pre") {
+				cs.pre_points += 1;
+			} else {
+				cs.post_points += 1;
+			}
+			// a map resize between armed batches before this point?
+			let prog = std::fs::read_to_string(format!("{}/progress.log", d)).unwrap_or_default();
+			if prog
+				.lines()
+				.last()
+				.and_then(|l| l.split(' ').last())
+				.and_then(|x| x.parse::<u64>().ok())
+				.unwrap_or(0) > 0
+			{
+				cs.resizes_in_armed_phase += 1;
+			}
+		}
+		let states = if n == 0 { states0.clone() } else { read_json(&format!("{}/states.json", d)) };
+		let states: Vec<(String, Value)> = states
+			.as_ref()
+			.and_then(|v| v.get("states"))
+			.and_then(|x| x.as_array())
+			.map(|a| {
+				a.iter()
+					.map(|x| (x["fp"].as_str().unwrap_or("").to_string(), x["keys"].clone()))
+					.collect()
+			})
+			.unwrap_or_default();
+		if states.is_empty() || expected_idx >= states.len() {
+			cs.inconclusive.push(format!("{} point {}: side file unusable", tag, n));
+			continue;
+		}
+		expected_idx = expected_idx.min(states.len() - 1);
+		// reopen in a fresh process
+		let dump_out = format!("{}/dump.json", d);
+		let r = run_worker(
+			&["--worker-dump".to_string(), d.clone(), dump_out.clone()],
+			&format!("{}/dump.log", d),
+			Duration::from_secs(120),
+		);
+		let dump = read_json(&dump_out);
+		let replay = json!({"scenario": "crash", "seed": seed, "variant": variant, "crash_point": n, "label": label,
+			"cmd": format!("c18 --worker-crash {} <dir> {} {}; c18 --worker-dump <dir> <out>", n, seed, variant)});
+		let kind = if label.ends_with(".pre") { "pre" } else if label.ends_with(".post") { "post" } else { "none" };
+		let dump = match (r.code, dump) {
+			(Some(0), Some(v)) => v,
+			(code, v) => {
+				if r.signal.is_some() || v.as_ref().map(|v| v.get("error").is_some()).unwrap_or(false) {
+					cs.violations.push((
+						format!("crash;at={};event=reopen_failed", kind),
+						format!(
+							"store cannot be reopened / read after a kill at {} (exit {:?} signal {:?}): {} {}",
+							label,
+							code,
+							r.signal,
+							v.map(|v| v.to_string()).unwrap_or_default(),
+							r.tail
+						),
+						replay,
+					));
+				} else {
+					cs.inconclusive.push(format!("{} point {}: dump worker failed: {}", tag, n, r.tail));
+				}
+				continue;
+			}
+		};
+		cs.reopen_cmp += 1;
+		let got = dump["fp"].as_str().unwrap_or("").to_string();
+		cs.sigs.push((
+			format!("crash;variant={};at={};commit_index={};states={}", variant, kind, expected_idx, states.len()),
+			n > 0,
+		));
+		if got != states[expected_idx].0 {
+			let other = states.iter().position(|s| s.0 == got);
+			let class = match other {
+				Some(i) if i < expected_idx => "committed_batch_lost",
+				Some(_) => "uncommitted_batch_visible",
+				None => "mixture",
+			};
+			cs.violations.push((
+				format!("crash;at={};class={}", kind, class),
+				format!(
+					"after a kill at {} (crash point {}, {} commits completed) the reopened store holds {} (keys {}), expected state {} (keys {})",
+					label,
+					n,
+					expected_idx,
+					match other {
+						Some(i) => format!("state {}", i),
+						None => "a state that is neither before nor after the interrupted commit".to_string(),
+					},
+					dump["keys"],
+					expected_idx,
+					states[expected_idx].1
+				),
+				replay.clone(),
+			));
+		} else if dump["unused"].as_u64().unwrap_or(0) != 0 {
+			cs.violations.push((
+				format!("crash;at={};class=phantom", kind),
+				"keys in a key space nothing was written to".into(),
+				replay.clone(),
+			));
+		}
+		if dump["post_ok"].as_bool() == Some(true) {
+			cs.post_crash_writes_ok += 1;
+		} else {
+			let e = dump["post_err"].as_str().unwrap_or("").to_string();
+			let space = ["MDB_MAP_FULL", "MDB_MAP_RESIZED", "MDB_TXN_FULL", "MDB_PAGE_FULL"]
+				.iter()
+				.find(|c| e.contains(**c));
+			if let Some(c) = space {
+				cs.violations.push((
+					format!("crash;at={};op=post_crash_batch;event=space_error:{}", kind, c),
+					format!("first batch after reopening a store killed at {} failed for lack of space: {}", label, e),
+					replay,
+				));
+			} else if e.contains("lost") || e.contains("changed") {
+				cs.violations.push((
+					format!("crash;at={};class=post_crash_write_wrong", kind),
+					format!("after reopening a store killed at {}: {}", label, e),
+					replay,
+				));
+			} else {
+				cs.inconclusive.push(format!("{} point {}: post-crash batch failed: {}", tag, n, e));
+			}
+		}
+		if cs.sample.is_none() && n == 2 {
+			cs.sample = Some(json!({"scenario": "crash", "seed": seed, "variant": variant, "crash_point": n, "label": label,
+				"commits_completed": expected_idx, "reopened_fp": got, "expected_fp": states[expected_idx].0,
+				"keys_per_space": dump["keys"]}));
+		}
+		if n > 0 {
+			let _ = std::fs::remove_dir_all(&d);
+		}
+	}
+	let _ = std::fs::remove_dir_all(&d0);
+	cs
+}
+
+// ------------------------------------------------------------------ parent side: multi-thread workers
+
+fn mt_args(p: &MtParams) -> Vec<String> {
+	vec![
+		"--worker-mt".into(),
+		p.seed.to_string(),
+		p.dir.clone(),
+		p.target_keys.to_string(),
+		p.max_batches.to_string(),
+		p.max_secs.to_string(),
+		p.n_point.to_string(),
+		p.n_iter.to_string(),
+		p.n_hold.to_string(),
+		p.hang_secs.to_string(),
+		p.out.clone().unwrap_or_default(),
+	]
+}
+
+enum MtOutcome {
+	Done(MtResult),
+	Hang(String, Option<MtResult>),
+	Killed(String),
+	Broken(String),
+}
+
+fn mt_spawn(p: &MtParams) -> MtOutcome {
+	let _ = std::fs::remove_dir_all(&p.dir);
+	let _ = std::fs::create_dir_all(&p.dir);
+	let out = p.out.clone().unwrap();
+	let _ = std::fs::remove_file(&out);
+	let r = run_worker(
+		&mt_args(p),
+		&format!("{}.log", p.dir),
+		Duration::from_secs(p.max_secs * 3 + p.hang_secs + 240),
+	);
+	let res = read_json(&out).map(|v| MtResult::from_json(&v));
+	let _ = std::fs::remove_dir_all(&p.dir);
+	if r.code == Some(vcommon::monitor::EXIT_HANG) {
+		let d = res.as_ref().and_then(|r| r.hang.clone()).unwrap_or_else(|| r.tail.clone());
+		return MtOutcome::Hang(d, res);
+	}
+	if r.timed_out {
+		return MtOutcome::Hang("worker exceeded its wall-clock limit and was killed".into(), res);
+	}
+	if let Some(sig) = r.signal {
+		return MtOutcome::Killed(format!("signal {}: {}", sig, r.tail));
+	}
+	match (r.code, res) {
+		(Some(0), Some(res)) => MtOutcome::Done(res),
+		(c, _) => MtOutcome::Broken(format!("exit {:?}: {}", c, r.tail)),
+	}
+}
+
+fn merge_mt(run: &Run, res: &MtResult, agg: &mut BTreeMap<String, u64>, mins: &mut BTreeMap<String, u64>) {
+	for (k, v) in &res.counters {
+		if k.contains("max_") || k.contains("final_") {
+			let e = agg.entry(k.clone()).or_insert(0);
+			*e = (*e).max(*v);
+		} else {
+			*agg.entry(k.clone()).or_insert(0) += *v;
+		}
+	}
+	for k in ["mt_resizes_completed", "mt_max_snapshot_keys_space0", "mt_resizes_deferred_until_txs_closed"] {
+		let v = *res.counters.get(k).unwrap_or(&0);
+		let e = mins.entry(k.to_string()).or_insert(u64::MAX);
+		*e = (*e).min(v);
+	}
+	for (sig, what, replay) in &res.violations {
+		run.violation(sig, what, replay.clone());
+	}
+	for s in &res.suspicious {
+		run.count("suspicious_non_space_errors", 1);
+		run.inconclusive(&format!("suspicious (not a space error), needs triage: {}", s));
+	}
+}
+
+// ------------------------------------------------------------------ main
+
+fn flush_st(run: &Run, st: StStats) -> StStats {
+	for (sig, nt) in &st.sigs {
+		run.eval(sig, *nt);
+	}
+	for (f, replay) in &st.fails {
+		if f.violation {
+			run.violation(&f.sig, &f.what, replay.clone());
+		} else {
+			run.count("suspicious_non_space_errors", 1);
+			run.inconclusive(&format!("suspicious (not a space error), needs triage: {} :: {}", f.sig, f.what));
+		}
+	}
+	for s in &st.samples {
+		run.sample(s.clone());
+	}
+	st
+}
+
+fn report_st(run: &Run, st: &StStats) {
+	run.count("st_programs_run", st.programs);
+	run.count("st_sessions", st.sessions);
+	for (k, v) in &st.ops {
+		run.count(&format!("st_op_{}", k), *v);
+	}
+	run.count("st_reopen_comparisons", st.reopen_cmp);
+	run.count("st_outside_full_comparisons", st.outside_full_cmp);
+	run.count("st_top_level_commits", st.top_commit);
+	run.count("st_top_level_drops", st.top_drop);
+	run.count("st_child_commits", st.child_commit);
+	run.count("st_child_drops", st.child_drop);
+	run.count("st_held_outside_iterators", st.held_iters);
+	run.count("st_held_iterators_finished_after_a_later_commit", st.held_across_commit);
+	run.count("st_map_resizes_in_growth_sessions", st.resizes);
+	run.count("st_resizes_immediate_no_open_tx", LOG_RESIZE_IMMEDIATE.load(Ordering::SeqCst));
+	run.count("st_resizes_deferred_own_iterator_open", LOG_RESIZE_WAIT.load(Ordering::SeqCst));
+	run.count("st_max_keys_in_one_space", st.max_keys_space);
+	run.count("st_distinct_nesting_fate_chains", st.chains.len() as u64);
+	run.extra(
+		"st_nesting_fate_chains",
+		json!({"explanation": "decision (C=commit, D=drop) of the level that wrote, then of every enclosing level up to the top-level batch",
+			"seen": st.chains.iter().cloned().collect::<Vec<_>>()}),
+	);
+}
+
+fn main() {
+	let raw: Vec<String> = std::env::args().skip(1).collect();
+	for (flag, f) in [
+		("--worker-mt", worker_mt as fn(&[String]) -> i32),
+		("--worker-crash", worker_crash),
+		("--worker-dump", worker_dump),
+		("--worker-probe", worker_probe),
+	] {
+		if let Some(i) = raw.iter().position(|a| a == flag) {
+			std::process::exit(f(&raw[i + 1..]));
+		}
+	}
+	install_logger();
+	init_thread();
+	let run = Run::from_env("C18", "exploration");
+	let san: Option<String> = run
+		.args
+		.iter()
+		.position(|a| a == "--san")
+		.and_then(|i| run.args.get(i + 1))
+		.cloned();
+	// own encoder == grin ser
+	{
+		let v = Val {
+			batch_id: 0x0102030405060708,
+			batch_size: 7,
+			seq: 9,
+			payload: vec![1, 2, 3],
+		};
+		let a = ser::ser_vec(&v, ProtocolVersion(3)).unwrap();
+		assert_eq!(a, enc_val(&v), "harness encoder differs from grin ser");
+		assert_eq!(dec_val(&a), Some(v));
+	}
+	run.set_rule(
+		"(1) single-thread: random programs of 50-200 ops (growth sessions 400-900) over 3 key spaces (prefix dbs 'b','h' and the default db) on a real Store: \
+		 put/put_ser/delete/get_ser/exists/iter in the top-level batch and in children nested to depth 3, commit or drop chosen at random at every level, reads on fresh read txns \
+		 while batches are open, outside iterators held across later commits, Store dropped and reopened after every program; every read is compared with RefNestedMap. \
+		 A program is non-trivial if it has a write whose whole chain committed, a write under a dropped level and a child batch; distinct = distinct (number of top-level batches, max depth, set of commit/drop fate chains, op kinds). \
+		 (2) multi-thread worker: writer + occasional second writer commit/drop batches of k fresh unique keys (contiguous or scattered over the tree and over 3 key spaces, partly via committed/dropped children, optionally deleting all keys of one older batch), \
+		 point readers, snapshot iterators and iterator holders run meanwhile; every snapshot must hold all or none of each batch's keys and equal the state after a prefix of the commit log between the commits finished before and started before its creation. \
+		 (3) crash: worker killed by abort at every crash point around Batch::commit of a sequence of nested batches; reopened content must equal exactly the model state for the number of completed commits.",
+	);
+	run.assume("a single batch dirties less than the free headroom the resize policy leaves (writers size a batch to <= 1/64 of the current map size); a batch larger than the headroom can legitimately hit MDB_MAP_FULL because the map is only enlarged between batches (see extra.headroom_probe)");
+	run.assume("a thread that keeps its own read iterator open while writing bypasses the resize wait (nested-tx escape in enter_tx); the single-thread growth sessions close held iterators at the end of each top-level batch");
+	run.assume("iterators are dropped before the Store that created them (TxCounter::drop unwraps the ENV_MAP entry removed by Store::drop)");
+	let scratch = Scratch::new("c18");
+	let seed = run.seed;
+
+	if let Some(kind) = san {
+		main_san(&run, &scratch, &kind);
+	} else {
+		main_full(&run, &scratch, seed);
+	}
+	drop(scratch);
+	run.finish();
+}
+
+fn main_san(run: &Run, scratch: &Scratch, kind: &str) {
+	let seed = run.seed;
+	let mut st = StStats::default();
+	for i in 0..3u64 {
+		let r = st_session(
+			&scratch.sub(&format!("san-st-{}", i)),
+			seed,
+			i,
+			false,
+			3,
+			Instant::now() + Duration::from_secs(600),
+		);
+		st.merge(flush_st(run, r));
+	}
+	report_st(run, &st);
+	let p = MtParams {
+		seed: seed ^ 0x5A,
+		dir: scratch.sub("san-mt"),
+		target_keys: 2500,
+		max_batches: if kind == "valgrind" { 160 } else { 260 },
+		max_secs: 900,
+		n_point: 2,
+		n_iter: 1,
+		n_hold: 1,
+		hang_secs: 1500,
+		worker: false,
+		out: None,
+	};
+	let res = mt_run(&p);
+	let mut agg = BTreeMap::new();
+	let mut mins = BTreeMap::new();
+	merge_mt(run, &res, &mut agg, &mut mins);
+	for (k, v) in &agg {
+		run.count(k, *v);
+	}
+	run.eval(&format!("mt;san={};in-process", kind), true);
+	run.eval_bulk(
+		agg.get("mt_snapshots_checked").cloned().unwrap_or(0) + agg.get("mt_point_reads_verified").cloned().unwrap_or(0),
+		vec![],
+	);
+	run.require("san: single-thread programs", st.programs, 6);
+	run.require("san: map resizes completed in the multi-thread workload", *agg.get("mt_resizes_completed").unwrap_or(&0), 1);
+	run.require("san: snapshots checked", *agg.get("mt_snapshots_checked").unwrap_or(&0), 5);
+	run.require("san: final == model comparisons (before and after reopen)", *agg.get("mt_end_state_comparisons").unwrap_or(&0), 2);
+	let susp = run.counter("suspicious_non_space_errors");
+	run.require("operations without unexpected non-space errors (1 = none)", if susp == 0 { 1 } else { 0 }, 1);
+}
+
+fn main_full(run: &Run, scratch: &Scratch, seed: u64) {
+	let tier = run.tier;
+	let t_start = Instant::now();
+	let st_deadline = t_start + Duration::from_secs(tier.pick(40, 520));
+	let n_sessions: u64 = tier.pick(64, 900);
+	let n_growth: u64 = tier.pick(2, 10);
+	let progs_per_session = 8usize;
+	let n_st_threads = tier.pick(5, 6);
+	let mut seeds = Prng::new(seed ^ 0xC18);
+
+	// multi-thread worker parameters
+	let n_mt: usize = tier.pick(2, 6);
+	let mt_parallel: usize = 2;
+	let mt_params: Vec<MtParams> = (0..n_mt)
+		.map(|i| MtParams {
+			seed: seeds.next_u64() >> 1,
+			dir: scratch.sub(&format!("mt-{}", i)),
+			target_keys: tier.pick(12_500, 30_000),
+			max_batches: tier.pick(1_500, 12_000),
+			max_secs: tier.pick(32, 150),
+			n_point: 3,
+			n_iter: 2,
+			n_hold: if i % 2 == 0 { 1 } else { 2 },
+			hang_secs: 60,
+			worker: true,
+			out: Some(scratch.sub(&format!("mt-{}.json", i))),
+		})
+		.collect();
+	let crash_jobs: Vec<(u64, u64)> = (0..tier.pick(3u64, 12))
+		.flat_map(|i| {
+			let s = seeds.next_u64() >> 1;
+			let _ = i;
+			vec![(s, 0u64), (s, 1u64)]
+		})
+		.collect();
+
+	let session_ctr = AtomicU64::new(0);
+	let growth_ctr = AtomicU64::new(0);
+	let st_total = Mutex::new(StStats::default());
+	let mt_outcomes: Mutex<Vec<(usize, MtOutcome)>> = Mutex::new(vec![]);
+	let mt_next = AtomicUsize::new(0);
+	let crash_total: Mutex<Vec<CrashStats>> = Mutex::new(vec![]);
+	let crash_next = AtomicUsize::new(0);
+	let probe: Mutex<Option<Value>> = Mutex::new(None);
+
+	std::thread::scope(|sc| {
+		// (1) single-thread sessions
+		for t in 0..n_st_threads {
+			let (session_ctr, growth_ctr, st_total) = (&session_ctr, &growth_ctr, &st_total);
+			let scratch = &scratch;
+			sc.spawn(move || {
+				init_thread();
+				let mut local = StStats::default();
+				loop {
+					if Instant::now() > st_deadline {
+						break;
+					}
+					// the first threads take the growth sessions first
+					let (idx, growth) = if t < 2 && growth_ctr.load(Ordering::SeqCst) < n_growth {
+						let g = growth_ctr.fetch_add(1, Ordering::SeqCst);
+						if g < n_growth {
+							(1_000_000 + g, true)
+						} else {
+							continue;
+						}
+					} else {
+						let i = session_ctr.fetch_add(1, Ordering::SeqCst);
+						if i >= n_sessions {
+							break;
+						}
+						(i, false)
+					};
+					let dir = scratch.sub(&format!("st-{}", idx));
+					let r = st_session(&dir, seed, idx, growth, if growth { 60 } else { progs_per_session }, st_deadline);
+					let _ = std::fs::remove_dir_all(&dir);
+					local.merge(flush_st(run, r));
+				}
+				st_total.lock().unwrap().merge(local);
+			});
+		}
+		// (2) multi-thread workers
+		for _ in 0..mt_parallel {
+			let (mt_next, mt_params, mt_outcomes) = (&mt_next, &mt_params, &mt_outcomes);
+			sc.spawn(move || loop {
+				let i = mt_next.fetch_add(1, Ordering::SeqCst);
+				if i >= mt_params.len() {
+					break;
+				}
+				let o = mt_spawn(&mt_params[i]);
+				mt_outcomes.lock().unwrap().push((i, o));
+			});
+		}
+		// (3) crash enumeration
+		for _ in 0..tier.pick(3, 4) {
+			let (crash_next, crash_jobs, crash_total) = (&crash_next, &crash_jobs, &crash_total);
+			let base = scratch.sub("crash");
+			sc.spawn(move || loop {
+				let i = crash_next.fetch_add(1, Ordering::SeqCst);
+				if i >= crash_jobs.len() {
+					break;
+				}
+				let cs = crash_enumerate(&base, crash_jobs[i].0, crash_jobs[i].1);
+				crash_total.lock().unwrap().push(cs);
+			});
+		}
+		// informational probe
+		{
+			let probe = &probe;
+			let dir = scratch.sub("probe");
+			let out = scratch.sub("probe.json");
+			sc.spawn(move || {
+				let _ = std::fs::create_dir_all(&dir);
+				let r = run_worker(
+					&["--worker-probe".to_string(), dir.clone(), out.clone()],
+					&format!("{}.log", dir),
+					Duration::from_secs(120),
+				);
+				let v = read_json(&out).unwrap_or(json!({"probe_failed": format!("code {:?} signal {:?}", r.code, r.signal)}));
+				*probe.lock().unwrap() = Some(v);
+				let _ = std::fs::remove_dir_all(&dir);
+			});
+		}
+	});
+
+	// ---- (1) report
+	let st = st_total.into_inner().unwrap();
+	report_st(run, &st);
+
+	// ---- (2) report, re-running hangs / crashes alone
+	let mut agg: BTreeMap<String, u64> = BTreeMap::new();
+	let mut mins: BTreeMap<String, u64> = BTreeMap::new();
+	let mut done = 0u64;
+	let mut outcomes = mt_outcomes.into_inner().unwrap();
+	outcomes.sort_by_key(|(i, _)| *i);
+	for (i, o) in outcomes {
+		let p = &mt_params[i];
+		let replay = json!({"scenario": "multi-thread", "worker_seed": p.seed, "cmd": format!("c18 {}", mt_args(p).join(" "))});
+		match o {
+			MtOutcome::Done(res) => {
+				done += 1;
+				merge_mt(run, &res, &mut agg, &mut mins);
+				let c = |k: &str| *res.counters.get(k).unwrap_or(&0);
+				run.eval(
+					&format!(
+						"mt;resizes={};deferred={};paging={};holders={}",
+						c("mt_resizes_completed").min(12),
+						(c("mt_resizes_deferred_until_txs_closed") > 0) as u8,
+						(c("mt_snapshots_over_10000_keys") > 0) as u8,
+						p.n_hold
+					),
+					true,
+				);
+				run.eval_bulk(c("mt_snapshots_checked") + c("mt_point_reads_verified"), vec![]);
+				if i == 0 {
+					run.sample(json!({"scenario": "multi-thread worker", "worker_seed": p.seed, "counters": res.counters}));
+				}
+			}
+			MtOutcome::Hang(desc, partial) => {
+				if let Some(res) = &partial {
+					for (sig, what, rp) in &res.violations {
+						run.violation(sig, what, rp.clone());
+					}
+				}
+				// only a reproduced hang is a violation: re-run this seed alone
+				match mt_spawn(p) {
+					MtOutcome::Hang(desc2, _) => {
+						let stuck = |d: &str| -> String {
+							let mut roles: Vec<String> = d
+								.split('|')
+								.next()
+								.unwrap_or("")
+								.trim()
+								.trim_start_matches("stuck=")
+								.split(',')
+								.map(|x| {
+									let mut it = x.split(':');
+									let role = it.next().unwrap_or("").trim_end_matches(|c: char| c.is_ascii_digit() || c == '-');
+									format!("{}:{}", role, it.next().unwrap_or(""))
+								})
+								.collect();
+							roles.sort();
+							roles.dedup();
+							roles.join(",")
+						};
+						run.violation(
+							&format!("mt;event=hang;stuck={}", stuck(&desc2)),
+							&format!("no progress for 60 s, reproduced when the seed was re-run alone. first: {} | second: {}", desc, desc2),
+							replay,
+						);
+					}
+					MtOutcome::Done(res) => {
+						done += 1;
+						merge_mt(run, &res, &mut agg, &mut mins);
+						run.inconclusive(&format!("multi-thread worker seed {} hung once ({}) but not when re-run alone", p.seed, desc));
+					}
+					_ => run.inconclusive(&format!("multi-thread worker seed {} hung once ({}), re-run broke", p.seed, desc)),
+				}
+			}
+			MtOutcome::Killed(desc) => {
+				let mut reproduced = None;
+				for _ in 0..2 {
+					if let MtOutcome::Killed(d2) = mt_spawn(p) {
+						reproduced = Some(d2);
+						break;
+					}
+				}
+				match reproduced {
+					Some(d2) => run.violation(
+						&format!("mt;event=worker_killed;{}", d2.split(':').next().unwrap_or("signal").replace(' ', "_")),
+						&format!("the process running the concurrent workload was killed by a signal, reproduced on re-run. first: {} | again: {}", desc, d2),
+						replay,
+					),
+					None => run.inconclusive(&format!("multi-thread worker seed {} killed once ({}), not reproduced in 2 re-runs", p.seed, desc)),
+				}
+			}
+			MtOutcome::Broken(desc) => run.inconclusive(&format!("multi-thread worker seed {} broke: {}", p.seed, desc)),
+		}
+	}
+	for (k, v) in &agg {
+		run.count(k, *v);
+	}
+	run.count("mt_workers_completed", done);
+	for (k, v) in &mins {
+		run.count(&format!("{}_min_over_workers", k), if *v == u64::MAX { 0 } else { *v });
+	}
+
+	// ---- (3) report
+	let mut cr = CrashStats::default();
+	for c in crash_total.into_inner().unwrap() {
+		cr.points += c.points;
+		cr.pre_points += c.pre_points;
+		cr.post_points += c.post_points;
+		cr.reopen_cmp += c.reopen_cmp;
+		cr.post_crash_writes_ok += c.post_crash_writes_ok;
+		cr.resizes_in_armed_phase += c.resizes_in_armed_phase;
+		cr.labels.extend(c.labels);
+		for (sig, nt) in &c.sigs {
+			run.eval(sig, *nt);
+		}
+		for (sig, what, rp) in c.violations {
+			run.violation(&sig, &what, rp);
+		}
+		for s in c.inconclusive {
+			run.inconclusive(&s);
+		}
+		if let Some(s) = c.sample {
+			run.sample(s);
+		}
+	}
+	run.count("crash_points_exercised", cr.points);
+	run.count("crash_points_pre_commit", cr.pre_points);
+	run.count("crash_points_post_commit", cr.post_points);
+	run.count("crash_reopen_comparisons", cr.reopen_cmp);
+	run.count("crash_post_crash_batches_ok", cr.post_crash_writes_ok);
+	run.count("crash_points_after_a_map_resize_in_the_armed_phase", cr.resizes_in_armed_phase);
+	run.extra("crash_point_labels", json!(cr.labels.iter().cloned().collect::<Vec<_>>()));
+	if let Some(p) = probe.into_inner().unwrap() {
+		run.extra(
+			"headroom_probe",
+			json!({"note": "informational, outside the property as stated: the map is only enlarged in Store::batch(), so one batch larger than the free headroom, or writes on a thread that keeps its own iterator open, can run out of map", "observed": p}),
+		);
+	}
+
+	// ---- minimum observations
+	let g = |k: &str| *agg.get(k).unwrap_or(&0);
+	let m = |k: &str| {
+		let v = *mins.get(k).unwrap_or(&0);
+		if v == u64::MAX {
+			0
+		} else {
+			v
+		}
+	};
+	run.require("single-thread programs run", st.programs, tier.pick(200, 2000));
+	run.require("reopen comparisons after programs", st.reopen_cmp, tier.pick(180, 1800));
+	run.require("distinct commit/drop fate chains over nesting depth 0..3 (30 possible)", st.chains.len() as u64, 30);
+	run.require("outside iterators finished after a later commit", st.held_across_commit, 20);
+	run.require("map resizes in single-thread growth sessions", st.resizes, 2);
+	run.require("multi-thread workers completed", done, n_mt as u64);
+	run.require("map resizes completed, minimum over workers", m("mt_resizes_completed"), tier.pick(2, 4));
+	run.require("largest single-snapshot iteration (keys), minimum over workers", m("mt_max_snapshot_keys_space0"), 10_001);
+	run.require(
+		"snapshot iterations over > 10 000 keys while the writer was committing",
+		g("mt_snapshots_over_10000_keys_while_writer_active"),
+		5,
+	);
+	run.require("snapshots checked", g("mt_snapshots_checked"), tier.pick(300, 2000));
+	run.require("held (long-lived) snapshots checked", g("mt_held_snapshots_checked"), tier.pick(10, 60));
+	run.require("resizes deferred until open transactions closed", g("mt_resizes_deferred_until_txs_closed"), 1);
+	run.require("point reads verified", g("mt_point_reads_verified"), tier.pick(10_000, 100_000));
+	run.require("second-writer batches committed", g("mt_w2_batches_committed"), tier.pick(20, 200));
+	run.require("final == model comparisons (before and after reopen)", g("mt_end_state_comparisons"), 2 * n_mt as u64);
+	run.require("crash points exercised", cr.points, tier.pick(20, 100));
+	run.require("crash labels seen (pre and post)", cr.labels.len() as u64, 2);
+	run.require("crash reopen comparisons", cr.reopen_cmp, cr.points.max(1));
+	run.require("crash points reached after a map resize between armed batches", cr.resizes_in_armed_phase, 1);
+	let susp = run.counter("suspicious_non_space_errors");
+	run.require("operations without unexpected non-space errors (1 = none)", if susp == 0 { 1 } else { 0 }, 1);
 }
